@@ -217,8 +217,99 @@ pub enum Node {
     Yield,
 }
 
+/// The way a context instance is obtained.
+#[derive(Serialize, Deserialize, Debug, Clone, Copy, PartialEq, Eq)]
+pub enum Origin {
+    /// `ThreadLocalCtxt::new()`
+    New,
+    /// `ThreadLocalCtxt::default()`
+    DefaultCall,
+    /// `<T as Default>::default()` through a generic helper
+    DefaultGeneric,
+    /// `emit::setup::DefaultCtxt::default()` (the alias `Setup` uses)
+    DefaultAlias,
+    /// `ThreadLocalCtxt::shared()`: by documentation the SAME storage as any other `shared()`
+    Shared,
+    /// `*emit::Setup::new().init_runtime().ctxt()`
+    SetupNewRuntime,
+    /// `*emit::setup().init_runtime().ctxt()`
+    SetupFnRuntime,
+    /// `emit::Setup::new().init_slot(&local AmbientSlot)`: `*init.ctxt()`, erased forms go through
+    /// `slot.get().ctxt()`
+    SetupSlot,
+}
+
+pub const ALL_ORIGINS: [Origin; 8] = [
+    Origin::New,
+    Origin::DefaultCall,
+    Origin::DefaultGeneric,
+    Origin::DefaultAlias,
+    Origin::Shared,
+    Origin::SetupNewRuntime,
+    Origin::SetupFnRuntime,
+    Origin::SetupSlot,
+];
+
+impl Origin {
+    /// 0 = new, 1 = default, 2 = shared, 3 = setup
+    fn class(self) -> usize {
+        match self {
+            Origin::New => 0,
+            Origin::DefaultCall | Origin::DefaultGeneric | Origin::DefaultAlias => 1,
+            Origin::Shared => 2,
+            Origin::SetupNewRuntime | Origin::SetupFnRuntime | Origin::SetupSlot => 3,
+        }
+    }
+
+    fn name(self) -> &'static str {
+        match self {
+            Origin::New => "ThreadLocalCtxt::new()",
+            Origin::DefaultCall => "ThreadLocalCtxt::default()",
+            Origin::DefaultGeneric => "<T as Default>::default()",
+            Origin::DefaultAlias => "DefaultCtxt::default()",
+            Origin::Shared => "ThreadLocalCtxt::shared()",
+            Origin::SetupNewRuntime => "Setup::new().init_runtime().ctxt()",
+            Origin::SetupFnRuntime => "emit::setup().init_runtime().ctxt()",
+            Origin::SetupSlot => "Setup::new().init_slot(&slot).ctxt()",
+        }
+    }
+}
+
+pub fn default_origins() -> [Origin; 3] {
+    [Origin::New, Origin::New, Origin::Shared]
+}
+
+const KIND_LABEL: [&str; 4] = [
+    "instance-kind:new",
+    "instance-kind:default",
+    "instance-kind:shared",
+    "instance-kind:setup-default-ctxt",
+];
+
+/// `[class of the instance with the entered frame][class of the other, distinct instance]`
+const PAIR_LABEL: [[&str; 4]; 4] = [
+    ["pair:new+new", "pair:default+new", "pair:new+shared", "pair:new+setup"],
+    ["pair:default+new", "pair:default+default", "pair:default+shared", "pair:default+setup"],
+    ["pair:new+shared", "pair:default+shared", "pair:shared+shared(unreachable)", "pair:setup+shared"],
+    ["pair:new+setup", "pair:default+setup", "pair:setup+shared", "pair:setup+setup"],
+];
+
+const PAIR_ACTIVE_LABEL: [[&str; 4]; 4] = [
+    ["both-active:new+new", "both-active:default+new", "both-active:new+shared", "both-active:new+setup"],
+    ["both-active:default+new", "both-active:default+default", "both-active:default+shared", "both-active:default+setup"],
+    ["both-active:new+shared", "both-active:default+shared", "both-active:shared+shared(unreachable)", "both-active:setup+shared"],
+    ["both-active:new+setup", "both-active:default+setup", "both-active:setup+shared", "both-active:setup+setup"],
+];
+
+fn generic_default<T: Default>() -> T {
+    T::default()
+}
+
 #[derive(Serialize, Deserialize, Debug, Clone, PartialEq)]
 pub struct Case {
+    /// how each of the three instance slots is obtained (two `Shared` slots are ONE instance)
+    #[serde(default = "default_origins")]
+    pub origins: [Origin; 3],
     /// skip the observation at program start, so that the first node is the first operation on
     /// this case's fresh instances
     #[serde(default)]
@@ -351,6 +442,12 @@ pub struct Stats {
 }
 
 pub struct K {
+    origins: [Origin; 3],
+    /// slot -> index of the model instance it denotes (`shared()` slots all denote the first of them)
+    canon: [usize; 3],
+    who: [String; 3],
+    /// the local ambient slots of `SetupSlot` origins
+    slots: [Option<emit::runtime::AmbientSlot>; 3],
     base: [ThreadLocalCtxt; 3],
     dyn_plain: [Box<DynCtxt>; 3],
     dyn_edge: [Box<DynCtxt>; 3],
@@ -363,9 +460,42 @@ pub struct K {
 }
 
 impl K {
-    fn new() -> K {
-        let base = [ThreadLocalCtxt::new(), ThreadLocalCtxt::new(), ThreadLocalCtxt::shared()];
+    fn new(origins: [Origin; 3]) -> K {
+        let mut slots: [Option<emit::runtime::AmbientSlot>; 3] = [None, None, None];
+        let mut base = [ThreadLocalCtxt::shared(); 3];
+        for i in 0..3 {
+            base[i] = match origins[i] {
+                Origin::New => ThreadLocalCtxt::new(),
+                Origin::DefaultCall => ThreadLocalCtxt::default(),
+                Origin::DefaultGeneric => generic_default::<ThreadLocalCtxt>(),
+                Origin::DefaultAlias => <emit::setup::DefaultCtxt as Default>::default(),
+                Origin::Shared => ThreadLocalCtxt::shared(),
+                Origin::SetupNewRuntime => *emit::Setup::new().init_runtime().ctxt(),
+                Origin::SetupFnRuntime => *emit::setup().init_runtime().ctxt(),
+                Origin::SetupSlot => {
+                    // a LOCAL slot: the process-global ambient slots are never touched
+                    let slot = emit::runtime::AmbientSlot::new();
+                    let c = {
+                        let init = emit::Setup::new().init_slot(&slot);
+                        *init.ctxt()
+                    };
+                    slots[i] = Some(slot);
+                    c
+                }
+            };
+        }
+        let mut canon = [0, 1, 2];
+        for i in 0..3 {
+            if origins[i] == Origin::Shared {
+                canon[i] = (0..3).find(|j| origins[*j] == Origin::Shared).unwrap();
+            }
+        }
+        let who = [0, 1, 2].map(|i| format!("slot {i} = {}", origins[i].name()));
         K {
+            origins,
+            canon,
+            who,
+            slots,
             base,
             dyn_plain: base.map(|c| Box::new(c) as Box<DynCtxt>),
             dyn_edge: base.map(|c| Box::new(Pad::<1>(c)) as Box<DynCtxt>),
@@ -375,6 +505,15 @@ impl K {
             next_thread: AtomicU32::new(1),
             next_task: AtomicU32::new(1),
             last_yield_depth: AtomicU32::new(0),
+        }
+    }
+
+    /// The instance of a slot as `&(dyn ErasedCtxt + Send + Sync)`: for a `SetupSlot` origin this
+    /// is the erased context the ambient slot itself hands out.
+    fn erased(&self, raw: usize) -> &DynCtxt {
+        match &self.slots[raw] {
+            Some(slot) => *slot.get().ctxt(),
+            None => &*self.dyn_plain[raw],
         }
     }
 
@@ -439,6 +578,9 @@ pub enum AnyFrame<'c> {
 
 pub struct Stored<'c> {
     frame: AnyFrame<'c>,
+    /// the slot whose handle the frame was built on
+    raw: usize,
+    /// the model instance (== `raw` unless the slot is a second `shared()`)
     inst: usize,
     /// the frame's value; `None` for a frame on `Option::None` (no context, no effect)
     value: Option<Arc<Map>>,
@@ -490,7 +632,8 @@ fn wrap_label(w: Wrap) -> &'static str {
 }
 
 fn create<'c>(k: &'c K, spec: &Spec, env: &Env, fl: Fl) -> Stored<'c> {
-    let inst = spec.inst as usize % 3;
+    let raw = spec.inst as usize % 3;
+    let inst = k.canon[raw];
     touch(1u8 << inst);
     let props = HeldProps::new(&spec.props);
     let own = props.model();
@@ -515,20 +658,20 @@ fn create<'c>(k: &'c K, spec: &Spec, env: &Env, fl: Fl) -> Stored<'c> {
             Kind::Disabled | Kind::Current => seen.clone(),
         })
     };
-    let base = k.base[inst];
+    let base = k.base[raw];
     let (kind, via) = (spec.kind, spec.via_ctxt);
     let frame = match spec.wrap {
         Wrap::Direct => AnyFrame::Direct(mk(base, kind, via, &props)),
-        Wrap::Ref => AnyFrame::Ref(mk(&k.base[inst], kind, via, &props)),
+        Wrap::Ref => AnyFrame::Ref(mk(&k.base[raw], kind, via, &props)),
         Wrap::Boxed => AnyFrame::Boxed(mk(Box::new(base), kind, via, &props)),
         Wrap::Arced => AnyFrame::Arced(mk(Arc::new(base), kind, via, &props)),
         Wrap::OptSome => AnyFrame::Opt(mk(Some(base), kind, via, &props)),
         Wrap::OptNone => AnyFrame::Opt(mk(None, kind, via, &props)),
         Wrap::Internal => AnyFrame::Internal(mk(AssertInternal(base), kind, via, &props)),
-        Wrap::Dyn => AnyFrame::Dyn(mk(&*k.dyn_plain[inst], kind, via, &props)),
-        Wrap::DynEdge => AnyFrame::Dyn(mk(&*k.dyn_edge[inst], kind, via, &props)),
-        Wrap::DynBig => AnyFrame::Dyn(mk(&*k.dyn_big[inst], kind, via, &props)),
-        Wrap::DynAligned => AnyFrame::Dyn(mk(&*k.dyn_aligned[inst], kind, via, &props)),
+        Wrap::Dyn => AnyFrame::Dyn(mk(k.erased(raw), kind, via, &props)),
+        Wrap::DynEdge => AnyFrame::Dyn(mk(&*k.dyn_edge[raw], kind, via, &props)),
+        Wrap::DynBig => AnyFrame::Dyn(mk(&*k.dyn_big[raw], kind, via, &props)),
+        Wrap::DynAligned => AnyFrame::Dyn(mk(&*k.dyn_aligned[raw], kind, via, &props)),
         Wrap::BoxDyn => AnyFrame::BoxDyn(mk(Box::new(base) as Box<DynCtxt>, kind, via, &props)),
         Wrap::BoxDynBig => AnyFrame::BoxDyn(mk(Box::new(Pad::<3>(base)) as Box<DynCtxt>, kind, via, &props)),
         Wrap::Pad => AnyFrame::Pad(mk(Pad::<3>(base), kind, via, &props)),
@@ -545,6 +688,7 @@ fn create<'c>(k: &'c K, spec: &Spec, env: &Env, fl: Fl) -> Stored<'c> {
     }
     Stored {
         frame,
+        raw,
         inst,
         value,
         seen,
@@ -615,16 +759,15 @@ fn expected_of(m: &Map) -> Observed {
     Observed { list, gets, typed }
 }
 
-const INST: [&str; 3] = ["A", "B", "shared"];
 
-fn compare(got: &Observed, want: &Map, at: &'static str, inst: usize, via: &str) -> Res {
+fn compare(got: &Observed, want: &Map, at: &'static str, who: &str, via: &str) -> Res {
     let want_o = expected_of(want);
     if got.list != want_o.list {
         return Err(Fail::new(
             format!("visible-mismatch@{at}"),
             format!(
                 "instance {} observed via {via} at {at}: enumeration {:?} but the innermost active frame's value is {:?}",
-                INST[inst], got.list, want_o.list
+                who, got.list, want_o.list
             ),
         ));
     }
@@ -633,7 +776,7 @@ fn compare(got: &Observed, want: &Map, at: &'static str, inst: usize, via: &str)
             format!("get-mismatch@{at}"),
             format!(
                 "instance {} observed via {via} at {at}: get() per key {:?} gives {:?}, expected {:?}",
-                INST[inst], KEYS, got.gets, want_o.gets
+                who, KEYS, got.gets, want_o.gets
             ),
         ));
     }
@@ -646,7 +789,7 @@ fn compare(got: &Observed, want: &Map, at: &'static str, inst: usize, via: &str)
                 format!("typed-mismatch@{at}"),
                 format!(
                     "instance {} observed via {via} at {at}: key {k:?} reads back as {g:?}, expected {t:?}",
-                    INST[inst]
+                    who
                 ),
             ));
         }
@@ -654,8 +797,8 @@ fn compare(got: &Observed, want: &Map, at: &'static str, inst: usize, via: &str)
     Ok(())
 }
 
-fn cmp_props<P: Props + ?Sized>(cur: &P, want: &Map, at: &'static str, inst: usize, via: &str) -> Res {
-    compare(&read_props(cur), want, at, inst, via)
+fn cmp_props<P: Props + ?Sized>(cur: &P, want: &Map, at: &'static str, who: &str, via: &str) -> Res {
+    compare(&read_props(cur), want, at, who, via)
 }
 
 fn observe<C: Ctxt + ?Sized>(c: &C) -> Observed {
@@ -707,9 +850,18 @@ fn check_via(k: &K, env: &Env, obs: Obs, at: &'static str) -> Res {
         return Ok(());
     }
     let empty = Map::new();
+    if obs == Obs::Direct {
+        // the process-wide (per thread) shared storage itself: it shows what the model's shared
+        // instance shows, and nothing at all if no slot of this case is `shared()`
+        let want = match (0..3).find(|i| k.origins[*i] == Origin::Shared) {
+            Some(i) => &*env.0[k.canon[i]],
+            None => &empty,
+        };
+        compare(&observe(&ThreadLocalCtxt::shared()), want, at, "ThreadLocalCtxt::shared() itself", obs_name(obs))?;
+    }
     for inst in 0..3 {
         let base = k.base[inst];
-        let mut want: &Map = &env.0[inst];
+        let mut want: &Map = &env.0[k.canon[inst]];
         let got = match obs {
             Obs::Direct | Obs::All => observe(&base),
             Obs::Ref => observe(&&base),
@@ -721,7 +873,7 @@ fn check_via(k: &K, env: &Env, obs: Obs, at: &'static str) -> Res {
                 observe(&None::<ThreadLocalCtxt>)
             }
             Obs::Internal => observe(&AssertInternal(base)),
-            Obs::Dyn => observe(&*k.dyn_plain[inst]),
+            Obs::Dyn => observe(k.erased(inst)),
             Obs::DynPlain => {
                 let d: &dyn ErasedCtxt = &base;
                 observe(d)
@@ -746,7 +898,7 @@ fn check_via(k: &K, env: &Env, obs: Obs, at: &'static str) -> Res {
                 out.expect("Frame::with did not call the closure")
             }
         };
-        compare(&got, want, at, inst, obs_name(obs))?;
+        compare(&got, want, at, &k.who[inst], obs_name(obs))?;
     }
     k.stat(|s| s.checks += 1);
     Ok(())
@@ -1177,6 +1329,7 @@ fn join<'a, 'c: 'a>(tasks: &'a [Task], schedule: &'a [(u32, u8)], env: &'a Env, 
 
 struct Info<'e> {
     inst: usize,
+    who: &'e str,
     has_value: bool,
     /// what the frame's own context shows while the frame is active
     shows: &'e Map,
@@ -1194,6 +1347,7 @@ async fn enter_stored<'a, 'c: 'a>(
 ) -> Result<Option<Stored<'c>>, Fail> {
     let Stored {
         frame,
+        raw,
         inst,
         value,
         seen,
@@ -1214,6 +1368,21 @@ async fn enter_stored<'a, 'c: 'a>(
             k.label("fresh-thread-first-op-is-enter");
             if born_thread != fl.thread {
                 k.label("fresh-thread-first-op-is-enter:carried-frame");
+            }
+        }
+        // which kinds of instances meet: a frame that shows something is active on this one while
+        // every other (distinct) instance is observed by the checks that follow
+        let mine = k.origins[raw].class();
+        k.label(KIND_LABEL[mine]);
+        if value.as_ref().is_some_and(|v| !v.is_empty()) {
+            for other in 0..3 {
+                if k.canon[other] != inst {
+                    let theirs = k.origins[other].class();
+                    k.label(PAIR_LABEL[mine][theirs]);
+                    if fl.active & (1u8 << k.canon[other]) != 0 {
+                        k.label(PAIR_ACTIVE_LABEL[mine][theirs]);
+                    }
+                }
             }
         }
         fl_in.depth += 1;
@@ -1255,6 +1424,7 @@ async fn enter_stored<'a, 'c: 'a>(
     let empty = Map::new();
     let info = Info {
         inst,
+        who: &k.who[raw],
         has_value: value.is_some(),
         shows: match &value {
             Some(v) => v,
@@ -1280,6 +1450,7 @@ async fn enter_stored<'a, 'c: 'a>(
     };
     Ok(back.map(|frame| Stored {
         frame,
+        raw,
         inst,
         value,
         seen,
@@ -1325,12 +1496,12 @@ where
         fut_depth: 0,
         ..fl_in
     };
-    let (inst, via) = (info.inst, info.via);
+    let (inst, via, who) = (info.inst, info.via, info.who);
     match how {
         How::Guard => {
             {
                 let mut g = frame.enter();
-                g.with(|cur| cmp_props(cur, info.shows, "inside-guard.with", inst, via))?;
+                g.with(|cur| cmp_props(cur, info.shows, "inside-guard.with", who, via))?;
                 check_all(k, inner, "after-enter")?;
                 run(body, inner.clone(), st, k, fl_sync).await?;
                 check_all(k, inner, "before-guard-drop")?;
@@ -1340,7 +1511,7 @@ where
         }
         How::With => {
             frame.with(|cur| {
-                cmp_props(cur, info.shows, "inside-with", inst, via)?;
+                cmp_props(cur, info.shows, "inside-with", who, via)?;
                 check_all(k, inner, "after-enter")?;
                 block_on_ready(run(body, inner.clone(), st, k, fl_sync))
             })?;
@@ -1438,7 +1609,7 @@ where
         How::EnterTwice => {
             {
                 let mut g = frame.enter();
-                g.with(|cur| cmp_props(cur, info.shows, "inside-guard.with", inst, via))?;
+                g.with(|cur| cmp_props(cur, info.shows, "inside-guard.with", who, via))?;
                 run(body, inner.clone(), st, k, fl_sync).await?;
             }
             check_all(k, outer, "after-guard-drop")?;
@@ -1448,7 +1619,7 @@ where
             }
             {
                 let mut g = frame.enter();
-                g.with(|cur| cmp_props(cur, info.shows, "inside-second-guard.with", inst, via))?;
+                g.with(|cur| cmp_props(cur, info.shows, "inside-second-guard.with", who, via))?;
                 check_all(k, inner, "after-second-enter")?;
             }
             check_all(k, outer, "after-second-guard-drop")?;
@@ -1464,7 +1635,7 @@ where
                     ctxt: &ctxt,
                     frame: &mut raw,
                 };
-                ctxt.with_current(|cur| cmp_props(cur, info.shows, "inside-manual-enter", inst, via))?;
+                ctxt.with_current(|cur| cmp_props(cur, info.shows, "inside-manual-enter", who, via))?;
                 check_all(k, inner, "after-enter")?;
                 run(body, inner.clone(), st, k, fl_sync).await?;
             }
@@ -1508,8 +1679,15 @@ fn scrub_shared() {
 pub fn run_case(case: &Case) -> Result<Stats, Fail> {
     scrub_shared();
     // this case's A and B are brand new; the per-thread shared() storage may have been used before
-    TOUCHED.with(|t| t.set(0b100));
-    let k = K::new();
+    let k = K::new(case.origins);
+    // the per-thread shared() storage has been used on this worker before; everything else is new
+    let mut touched = 0u8;
+    for i in 0..3 {
+        if case.origins[i] == Origin::Shared {
+            touched |= 1u8 << k.canon[i];
+        }
+    }
+    TOUCHED.with(|t| t.set(touched));
     let env = Env::empty();
     let r = {
         let mut st: Store<'_> = Vec::new();
